@@ -644,3 +644,13 @@ package main
 //@   modifies map(c.nodes), fresh []interface{}
 //@   loop 1 binds proto
 //@   loop 1 invariant (node.Name in c.nodes) && c.nodes[node.Name] == node
+
+// bgpController.SetNode (abstracted mode): after an event for this node the cached labels - the input of the peers' node
+// selectors - are those of the node (an unchanged set is kept, anything else is stored and the peerings are re-synced)
+//@ pred SameLabels(a labels.Set, b map[string]string) := forall k string :: ((k in a) == (k in b)) && a[k] == b[k]
+//@ func (*bgpController).SetNode
+//@   abstract
+//@   requires c != nil && node != nil
+//@   ensures [labels] c.myNode == node.Name ==> c.nodeLabels != nil && SameLabels(c.nodeLabels, node.Labels)
+//@   ensures [otherNode] c.myNode != node.Name ==> c.nodeLabels == old(c.nodeLabels) && result == nil
+//@   assert before syncPeers: [stored] c.nodeLabels != nil && SameLabels(c.nodeLabels, node.Labels)
